@@ -44,7 +44,7 @@ def brief(v):
 
 def parse_cfg(alphabet, maxlen, cfgnames, invs):
     return ("CONSTANTS\n  DEV_QuoteFlagsBeforeEmit = FALSE\n  DEV_GluedAfterAccepted = FALSE\n"
-            "  DEV_RestrictedNeedsValidBody = FALSE\n  Alphabet = {%s}\n  MaxLen = %d\n  CfgNames = {%s}\n"
+            "  DEV_RestrictedNeedsValidBody = FALSE\n  DEV_DelCredEmptyListIsNil = FALSE\n  Alphabet = {%s}\n  MaxLen = %d\n  CfgNames = {%s}\n"
             "SPECIFICATION Spec\nINVARIANTS %s\nCHECK_DEADLOCK FALSE\n" % (
                 ", ".join(map(str, alphabet)), maxlen, ", ".join('"%s"' % c for c in cfgnames), " ".join(invs)))
 
